@@ -60,7 +60,10 @@ class Lexer(object):
 
     @TOKEN(r'("(\\.|[^"\\])*")|(\'(\\.|[^\'\\])*\')')
     def t_STRING(self, t):
-        t.value = t.value.strip("\"'").encode().decode("unicode_escape")
+        try:
+            t.value = t.value.strip("\"'").encode().decode("unicode_escape")
+        except UnicodeDecodeError:
+            raise SyntaxError("Invalid escape sequence in string {0} at position {1}".format(t.value, t.lexpos))
         return t
 
     @TOKEN(r"[\r\n]+")
